@@ -489,3 +489,14 @@ V("twin: add_edge removes the first unused index with del", "C05", BASE, "      
 V("twin: calculate labels a contracted pair with the larger subscript", "C05", BASE, "            indices[max(i, j)] = min(i, j)", "            indices[min(i, j)] = max(i, j)", "missed")
 V("D24 regression: join/meet put the caller's objects themselves into the diagram", "C02", POINT, "    args = tuple(o.copy() for o in args)\n", "", "E14.id", "_join_meet_duality")
 V("twin: join/meet copy their arguments one by one", "C02", POINT, "    args = tuple(o.copy() for o in args)\n", "    args = tuple([a.copy() for a in args])\n", "silent")
+
+
+# ------------------------------------------------------------------------------------------------ index types follow the axes (E15)
+V("transpose: index sets through the inverse permutation (E15 view)", "C19", BASE, "        for i, j in enumerate(perm):\n            if j in self._covariant_indices:\n                covariant_indices.append(i)\n            elif j in self._contravariant_indices:\n                contravariant_indices.append(i)",
+  "        for i, j in enumerate(perm):\n            if i in self._covariant_indices:\n                covariant_indices.append(j)\n            elif i in self._contravariant_indices:\n                contravariant_indices.append(j)", "E15", "Tensor.transpose")
+V("tensor_product: contravariant indices of the first factor placed last", "C19", BASE, "        contravariant = list(self._contravariant_indices) + [offset + i for i in other._contravariant_indices]",
+  "        contravariant = [offset + i for i in other._contravariant_indices] + list(self._contravariant_indices)", "silent")
+V("tensor_product: result typed with one covariant index too few", "C19", BASE, "        return Tensor(result, covariant=range(len(covariant)), copy=False)", "        return Tensor(result, covariant=range(len(covariant) - 1), copy=False)", "E15", "Tensor.tensor_product")
+V("expand_dims: index sets shifted for positions after the new axis only", "C19", BASE, "        result._covariant_indices = {i + 1 if i >= axis else i for i in self._covariant_indices}", "        result._covariant_indices = {i + 1 if i > axis else i for i in self._covariant_indices}", "E15", "expand_dims")
+V("__getitem__: covariant and contravariant sets exchanged when the mapping is applied", "C19", BASE, "            if old_axis in self._covariant_indices:\n                covariant_indices.append(new_axis)\n            elif old_axis in self._contravariant_indices:\n                contravariant_indices.append(new_axis)",
+  "            if old_axis in self._covariant_indices:\n                contravariant_indices.append(new_axis)\n            elif old_axis in self._contravariant_indices:\n                covariant_indices.append(new_axis)", "E15", "Tensor.__getitem__")
